@@ -242,6 +242,10 @@ func init() {
 		if i%30 == 21 {
 			return &sessCase{Stalled: 2}
 		}
+		if i%60 == 37 {
+			// shutdown with acknowledged messages still in the routing queue
+			return &sessCase{Stalled: 11}
+		}
 		if i%30 == 29 {
 			// the whole server: listeners, established connections and connections still in their handshake
 			lc := &lisCase{}
@@ -333,6 +337,10 @@ func init() {
 			c := &sessCase{Preempt: true}
 			resumeOutlivesRestoredExpiry(r, c)
 			return c
+		}
+		if i%60 == 47 {
+			// the reader of the connection that is taken over is busy when the take-over arrives
+			return &sessCase{Stalled: 10}
 		}
 		c := &sessCase{Preempt: r.Chance(65)}
 		v5mask := r.Intn(4)
